@@ -172,6 +172,17 @@ Proof.
   split; [eexists; split; [vm_compute; reflexivity|reflexivity]|]. vm_compute. now left.
 Qed.
 
+(* The notice that the session's room was deleted while it had no connection is queued like any other
+   message and delivered by the resume (the code as found dropped it: repaired, see Hub_pending.v). *)
+Theorem C06_room_deleted_while_disconnected_repaired :
+  snd (qstep (qrun (init [0] false) del_pre) (OApi 0 0 5 ADelete)) = [ToConn 1 (SRoom 0)] /\
+  option_map s_room (get_sess (qrun (init [0] false) (del_pre ++ [ODrop 1])) 1) = Some (Some (0, 5)) /\
+  pend (qrun (init [0] false) del_cut) 1 = [SRoom 0] /\
+  snd (qstep (qrun (init [0] false) del_cut) (OHello 2 (HResume (IdPriv 1)))) = [ToConn 2 (SHello 1 7); ToConn 2 (SRoom 0)] /\
+  option_map s_room (get_sess (fst (qstep (qrun (init [0] false) del_cut) (OHello 2 (HResume (IdPriv 1))))) 1) = Some None.
+Proof. exact room_deleted_while_disconnected_repaired. Qed.
+
+Print Assumptions C06_room_deleted_while_disconnected_repaired.
 Print Assumptions C06_resume_flushes_queue.
 Print Assumptions C06_queued_while_disconnected.
 Print Assumptions C06_resume_needs_private_id.
